@@ -34,7 +34,7 @@ TECHNIQUE = (
 )
 RULE = (
     "Case = store operation (bulk_index, index, search, refresh, put_template, template_exists, get_template, create_index, exists, "
-    "delete, delete_by_query) x script of 0-12 wire outcomes (ok, ConnectionTimeout, ConnectionError, HTTP 429/502/503/504, HTTP 401, "
+    "delete, delete_by_query) x script of 0-12 wire outcomes (ok, ConnectionTimeout, ConnectionError or its sub-class TlsError, HTTP 429/502/503/504, HTTP 401, "
     "403, other HTTP 400/404/409/500, other TransportError (SerializationError/bare/SniffingError), and for bulk operations a 200 "
     "response with per-item statuses: all failures retryable / at least one non-retryable failure), after which the store answers ok; "
     "x client freshly created or already verified x jitter seed. Exhaustive sub-domain: every operation x retryable prefix (each "
@@ -68,7 +68,7 @@ OPS = ["bulk_index", "index", "search", "refresh", "put_template", "template_exi
 BULK_OPS = {"bulk_index", "index"}
 HEAD_OPS = {"exists", "template_exists"}
 RETRYABLE_STATUS = (429, 502, 503, 504)
-RETRYABLE = ["conn_timeout", "conn_error", "http:429", "http:502", "http:503", "http:504"]
+RETRYABLE = ["conn_timeout", "conn_error", "conn_error_tls", "http:429", "http:502", "http:503", "http:504"]
 OTHER_STATUS = (400, 404, 409, 500)
 ERROR_TYPE = {
     400: "illegal_argument_exception",
@@ -135,7 +135,7 @@ def _kind(op, outcome):
     """what the statement says about one wire outcome of operation op: success | retry | auth | error"""
     if outcome == "ok":
         return "success"
-    if outcome in ("conn_timeout", "conn_error"):
+    if outcome in ("conn_timeout", "conn_error", "conn_error_tls"):
         return "retry"
     head, _, arg = outcome.partition(":")
     if head == "http":
@@ -237,7 +237,7 @@ def _cause_tokens(case, index, end):
     outcome = _outcome_at(case, index)
     head, _, arg = outcome.partition(":")
     where = [(HOST, str(PORT))]
-    if outcome in ("conn_timeout", "conn_error"):
+    if outcome in ("conn_timeout", "conn_error", "conn_error_tls"):
         return where
     if head == "http":
         status = int(arg)
@@ -284,6 +284,10 @@ def run_case(case, obs):
         if outcome == "conn_error":
             produced.append(("exc", None, None))
             raise elasticsearch.ConnectionError(f"wire-fault-{attempt}")
+        if outcome == "conn_error_tls":
+            # the client library's sub-class of ConnectionError for TLS faults (handshake reset while a proxy restarts, ...)
+            produced.append(("exc", None, None))
+            raise elastic_transport.TlsError(f"wire-fault-{attempt}")
         if head == "transport_other":
             produced.append(("exc", None, None))
             t = {"ser": elasticsearch.SerializationError, "bare": elasticsearch.TransportError, "sniff": elastic_transport.SniffingError}[arg]
